@@ -347,3 +347,70 @@ def rule_loopload(ctx, R):
             if differs is None:
                 raise AnalysisBroken('RV-LOOPLOAD: %s is %s, expected %s; undecided' % (inst, T.term_show(got, None), T.term_show(want, None)))
             R.violation(inst, where, expected=T.term_show(want, None), found=T.term_show(got, None))
+
+
+@memoised('RV-DSREAD-LIGHT')
+def rule_dsread_light(ctx, R):
+    R.rule('RV-DSREAD-LIGHT', 'the light-mode dataset read of the RV64 runtime up to its call of the SuperscalarHash routine (randomx_riscv64_data_read_light followed by the v1 or the v2 piece, as the generator assembles it), '
+           'executed on terms: ma:mx swapped and XORed with readReg2 ^ readReg3 on the observable bits, item number = (old ma & CacheLineAlignMask) / 64 + the offset constant of the template (RV-DSOFF decides the constant), '
+           'VM registers untouched; both ISA variants', min_instances=30)
+    import astq
+    from rules import bitlin
+    FI = astq.Facts(ctx, 'K0')
+    mask = FI.const('randomx::CacheLineAlignMask')
+    regmap = _regmap(ctx)
+    vmreg = {x: i for i, x in enumerate(regmap)}
+    undecided, nviol = [], 0
+    for arch in ('rv64', 'rv64b'):
+        o = ctx.obj(arch)
+        P = rtasm.Prog(o, 'rv')
+        R.saw(unit='src/jit_compiler_rv64_static.S', config='K3' + (' +zba +zbb' if arch == 'rv64b' else ''))
+        s0, s1, s2, s3 = (P.sym(n) for n in ('randomx_riscv64_data_read_light', 'randomx_riscv64_data_read_light_v1', 'randomx_riscv64_data_read_light_v2', 'randomx_riscv64_fix_loop_call'))
+        pool = o.sym('literal_pool') if o.has('literal_pool') else o.sym('randomx_riscv64_literals')
+        f0 = rtasm.Frame(P)
+        f0.run(P.sym('randomx_riscv64_prologue'), stop={P.sym('randomx_riscv64_loop_begin')})
+        lit = [r for r, v in f0.reg.items() if v == ('addr', pool)]
+        if len(lit) != 1:
+            raise AnalysisBroken('RV-DSREAD-LIGHT: the literal pool pointer was not identified')
+        lit_reg = int(lit[0][1:])
+        where = 'src/jit_compiler_rv64_static.S:randomx_riscv64_data_read_light'
+        head = [P.ins[a] for a in P.order if s0 <= a < s1]
+        w0 = head[0].raw
+        if not (head[0].size == 4 and (w0 & 0xfe00707f) == 0x00004033):
+            raise AnalysisBroken('RV-DSREAD-LIGHT: the first instruction of the fragment is not `xor rd, rs1, rs2`')
+        ra, rb = (w0 >> 15) & 31, (w0 >> 20) & 31
+        if ra not in vmreg or rb not in vmreg:
+            R.violation('%s source registers' % arch, where, expected='two VM registers', found='x%d, x%d' % (ra, rb))
+            continue
+        for ver, lo_, hi_ in (('v1', s1, s2), ('v2', s2, s3)):
+            m = DsMachine(regmap, lit_reg, lambda off: o.u32(pool + off))
+            tr = []
+            for i in head + [P.ins[a] for a in P.order if lo_ <= a < hi_]:
+                try:
+                    tr.append(m.step16(i.raw, P.name_at(i.addr)) if i.size == 2 else m.step32(i.raw, P.name_at(i.addr)))
+                except V.NotInteger as e:
+                    raise AnalysisBroken('RV-DSREAD-LIGHT: %s at %s' % (e, P.name_at(i.addr)))
+            t = xor(atom(('reg', vmreg[ra])), atom(('reg', vmreg[rb])))
+            mp0 = atom(('undef', 25))
+            want_mp = xor(ror(mp0, const(32)), X.and_(t, const(0xffffffff))) if ver == 'v2' else ror(xor(mp0, X.and_(t, const(0xffffffff))), const(32))
+            offc = m.get(9)
+            checks = [('%s %s ma:mx (x25)' % (arch, ver), m.get(25), want_mp, mask | (mask << 32))]
+            if not offc.is_const():
+                R.violation('%s %s offset constant (x9)' % (arch, ver), where, expected='a constant built by lui / addi', found=T.term_show(offc, None))
+            else:
+                checks.append(('%s %s item number (x7)' % (arch, ver), m.get(7), add(V.srl(X.and_(ror(mp0, const(32)), const(mask)), 6), offc), bitlin.ALL))
+            for k in range(8):
+                checks.append(('%s %s r%d untouched' % (arch, ver, k), m.get(regmap[k]), atom(('reg', k)), bitlin.ALL))
+            for inst, got, want, obs in checks:
+                verdict, how = bitlin.decide(got, want, obs)
+                if verdict == 'eq':
+                    R.ok(inst, where)
+                elif verdict == 'unknown':
+                    undecided.append('%s is %s, expected %s; undecided' % (inst, T.term_show(got, None), T.term_show(want, None)))
+                else:
+                    nviol += 1
+                    R.violation(inst, where, expected=T.term_show(want, None), found='%s after `%s`; %s' % (T.term_show(got, None), ' ; '.join(tr), how))
+    if undecided and not nviol:
+        raise AnalysisBroken('RV-DSREAD-LIGHT: ' + undecided[0])
+    for u in undecided:
+        R.note('RV-DSREAD-LIGHT: ' + u)
